@@ -24,6 +24,7 @@ import (
 	"strconv"
 	"strings"
 	"sync"
+	"syscall"
 	"time"
 
 	"verif/internal/instr"
@@ -388,8 +389,25 @@ func runWorkers(c *Check, cfg *Config, bin, work string, rs runSpec) ([]Result, 
 			select {
 			case werr = <-done:
 			case <-time.After(hard):
-				cmd.Process.Kill()
-				<-done
+				// The internal deadline is tested between cases, so a worker that is still alive long after it
+				// is stuck inside one case body. Ask the Go runtime for its goroutine stacks (SIGQUIT) and
+				// attribute the hang by the same rule as a crash: if the goroutine that is executing is inside
+				// gonum's own code, the code under test does not terminate (or takes minutes for a case that
+				// takes milliseconds on the unchanged tree) - a violation of class worker-hang. Otherwise it
+				// is an engine error.
+				cmd.Process.Signal(syscall.SIGQUIT)
+				select {
+				case <-done:
+				case <-time.After(20 * time.Second):
+					cmd.Process.Kill()
+					<-done
+				}
+				os.WriteFile(filepath.Join(verifDir, ".work", fmt.Sprintf("hang-%s-%s-%d.stderr", c.Property, cfg.Name, i)), stderr.Bytes(), 0o644)
+				if cls, msg := hangInCodeUnderTest(stderr.String()); cls != "" {
+					results[i] = Result{Config: cfg.Name, NViolations: 1, Complete: false, StoppedAt: "worker hung",
+						Violations: []Violation{{Group: "hang", Key: fmt.Sprintf("shard-%d-of-%d", i, n), Class: cls, Msgs: []string{fmt.Sprintf("after %v (internal deadline %ds): %s", hard, rs.deadline, msg)}}}}
+					return
+				}
 				errs[i] = fmt.Errorf("shard %d of %s exceeded the hard stop (%v); the internal deadline did not trigger", i, cfg.Name, hard)
 				return
 			}
@@ -472,6 +490,48 @@ func crashInCodeUnderTest(stderr string) (class, msg string) {
 		tr = tr[:1800]
 	}
 	return "worker-crash", "the worker process was killed by an unrecoverable fault inside the code under test at " + first + ":\n" + tr
+}
+
+// hangInCodeUnderTest inspects the SIGQUIT goroutine dump of a worker that passed the hard stop. It looks at
+// the goroutines that are executing (running or runnable, not blocked) and returns class "worker-hang" if the
+// innermost non-runtime frame of one of them lies in gonum itself (not in the injected internal/verif packages).
+func hangInCodeUnderTest(dump string) (class, msg string) {
+	idx := strings.Index(dump, "SIGQUIT")
+	if idx < 0 {
+		return "", ""
+	}
+	for _, blk := range strings.Split(dump[idx:], "\n\n") {
+		blk = strings.TrimSpace(blk)
+		if !strings.HasPrefix(blk, "goroutine ") {
+			continue
+		}
+		hdr := blk
+		if j := strings.Index(hdr, "\n"); j >= 0 {
+			hdr = hdr[:j]
+		}
+		if !strings.Contains(hdr, "[running") && !strings.Contains(hdr, "[runnable") {
+			continue
+		}
+		first := ""
+		for _, l := range strings.Split(blk, "\n") {
+			l = strings.TrimSpace(l)
+			if !strings.HasPrefix(l, "/") {
+				continue
+			}
+			if strings.Contains(l, "/go-1.") || strings.Contains(l, "/src/runtime/") || strings.Contains(l, "/opt/veriftools/") {
+				continue
+			}
+			first = l
+			break
+		}
+		if first != "" && strings.HasPrefix(first, repoDir+"/") && !strings.HasPrefix(first, virtBase+"/") {
+			if len(blk) > 1500 {
+				blk = blk[:1500]
+			}
+			return "worker-hang", "the worker did not finish a case: it is executing inside the code under test at " + first + ":\n" + blk
+		}
+	}
+	return "", ""
 }
 
 func inTier(cfg *Config, tier string) bool {
@@ -635,7 +695,23 @@ func cmdCheck(args []string) int {
 			res, err := runWorkers(c, cfg, bins[i], work, rs)
 			cfg.Env = saved
 			if err != nil {
-				fatal("%v", err)
+				// a shard that failed for an engine reason does not invalidate violations that the other
+				// shards found and confirmed: report those (exit 1) and say that the run was incomplete.
+				nv := 0
+				for _, r := range res {
+					nv += r.NViolations
+				}
+				if nv == 0 {
+					fatal("%v", err)
+				}
+				msg := err.Error()
+				if len(msg) > 600 {
+					msg = msg[:600]
+				}
+				fmt.Printf("ENGINE-WARNING: %s\n(violations found by the other shards are reported below; the run is incomplete)\n", msg)
+				sum.Complete = false
+				complete = false
+				sum.StoppedAt = append(sum.StoppedAt, "engine error in one shard")
 			}
 			for _, r := range res {
 				sum.Evaluations += r.Evaluations
